@@ -935,4 +935,191 @@ Proof.
   destruct (gillespie_reach i0 r0 fuel Hwf) as [_ He]. apply He. exact H.
 Qed.
 
+(* ---- what one event does to the state (for log / output invariants) ---- *)
+Definition rec_status : N := match kind with SIR => stR | SIS => stS end.
+
+Inductive effect (t1 : Q) (s s' : gst) : Prop :=
+| eff_recover : forall u, stat s u = stI -> In u (gnodes g) ->
+    stat s' = fupdN (stat s) u rec_status ->
+    rows s' = (match kind with SIR => push_row s t1 0 (-1) 1 | SIS => push_row2 s t1 1 (-1) end) ->
+    elog s' = (if full then (t1, u, rec_status) :: elog s else elog s) ->
+    tlog s' = tlog s -> effect t1 s s'
+| eff_transmit : forall u v, stat s u = stI -> stat s v = stS -> In v (gadj g u) -> In v (gnodes g) ->
+    stat s' = fupdN (stat s) v stI ->
+    rows s' = (match kind with SIR => push_row s t1 (-1) 1 0 | SIS => push_row2 s t1 (-1) 1 end) ->
+    elog s' = (if full then (t1, v, stI) :: elog s else elog s) ->
+    tlog s' = (if full then (t1, Some u, v) :: tlog s else tlog s) -> effect t1 s s'.
+
+Lemma event_effect : forall t1 trec ttot s s',
+  GInv s -> reach (event_st g kind full t1 trec ttot s) s' -> effect t1 s s'.
+Proof.
+  intros t1 trec ttot s s' HG H. pose proof (g_inv s HG) as HI. unfold event_st in H.
+  inversion H as [| |? ? ? ? Hp Hk|? ? ? ? Hp Hk| | | |]; subst;
+    inversion Hk as [| | | | |? ? ? c q ? Hin Hq Hk2| |]; subst; apply kl_cands_in in Hin.
+  - destruct (infs_member s c HI Hin) as [u [Ec Hu]]. subst c. cbn [keynode rbind] in Hk2.
+    apply reach_liftr in Hk2.
+    assert (Hun : In u (gnodes g)). { apply (g_nodes s HG). rewrite Hu. discriminate. }
+    destruct kind eqn:Ek.
+    + destruct (sir_recover_inv g Hg full t1 u s HI Hu) as [s2 [He [_ [Hst [Hr [Hel Htl]]]]]].
+      rewrite He in Hk2. injection Hk2 as E. subst s2.
+      apply (eff_recover t1 s s' u); [exact Hu|exact Hun|unfold rec_status; rewrite Ek; exact Hst
+        |rewrite Ek; exact Hr|unfold rec_status; rewrite Ek; exact Hel|exact Htl].
+    + destruct (sis_recover_inv g Hg full t1 u s HI Hu (stat_ok_sis Ek _ (g_stat s HG)))
+        as [s2 [He [_ [Hst [Hr [Hel Htl]]]]]].
+      rewrite He in Hk2. injection Hk2 as E. subst s2.
+      apply (eff_recover t1 s s' u); [exact Hu|exact Hun|unfold rec_status; rewrite Ek; exact Hst
+        |rewrite Ek; exact Hr|unfold rec_status; rewrite Ek; exact Hel|exact Htl].
+  - destruct (links_member s c HI Hin) as [u [v [Ec [Hu [Hv Huv]]]]]. subst c.
+    cbn [keypair rbind fst snd] in Hk2. apply reach_liftr in Hk2.
+    destruct (transmit_inv g Hg kind full t1 u v s HI Hv (fun Ek => stat_ok_sis Ek _ (g_stat s HG)))
+      as [s2 [He [_ [Hst [Hr [Hel Htl]]]]]].
+    rewrite He in Hk2. injection Hk2 as E. subst s2.
+    apply (eff_transmit t1 s s' u v); try assumption. apply (Hadj u v Huv).
+Qed.
+
+(* the loop carries any additional invariant that every event preserves *)
+Theorem loop_reach_P : forall (P : gst -> Prop),
+  (forall t1 s s', GInv s -> P s -> last_time s <= t1 -> xlt t1 tmax = true -> effect t1 s s' -> P s') ->
+  forall fuel t s, GInv s -> P s -> last_time s <= t ->
+  forall out, reach (loop g kind tau gamma tmin tmax full fuel t s) out ->
+    exists s', GInv s' /\ P s' /\ out = finish g kind tmin full s' /\ stopped s'.
+Proof.
+  intros P HP. induction fuel as [|f IH]; intros t s HG HPs Hlt out H; rewrite loop_eq in H; cbv zeta in H;
+    destruct (Qltb 0 (total_rec gamma s + total_tr tau s)) eqn:Epos.
+  - inversion H as [|? ? d ? Hr Hd Hk| | | | | |]; subst.
+    destruct (negb (is_empty (infs s)) && xlt (t + d) tmax) eqn:Ec; [inversion Hk|].
+    inversion Hk; subst. exists s. split; [exact HG|]. split; [exact HPs|]. split; [reflexivity|].
+    apply andb_false_iff in Ec. destruct Ec as [Ec|Ec].
+    + right. left. apply negb_false_iff. exact Ec.
+    + right. right. intro E. rewrite E in Ec. discriminate Ec.
+  - inversion H; subst. exists s. split; [exact HG|]. split; [exact HPs|]. split; [reflexivity|].
+    left. apply Qltb_false in Epos. intro E. apply (Qlt_irrefl 0). eapply Qlt_le_trans; eassumption.
+  - apply Qltb_true in Epos.
+    inversion H as [|? ? d ? Hr Hd Hk| | | | | |]; subst.
+    destruct (negb (is_empty (infs s)) && xlt (t + d) tmax) eqn:Ec.
+    + apply andb_true_iff in Ec. destruct Ec as [_ Hx].
+      unfold event in Hk. apply reach_bind in Hk. destruct Hk as [s1 [H1 H2]].
+      assert (Hlt1 : last_time s <= t + d).
+      { eapply Qle_trans; [exact Hlt|]. rewrite <- (Qplus_0_r t) at 1. apply Qplus_le_r. exact Hd. }
+      destruct (event_reach (t + d) (total_rec gamma s) (total_rec gamma s + total_tr tau s) s HG Hlt1 Hx
+                  (Qeq_refl _) (Qeq_refl _) Epos) as [Hok _].
+      destruct (Hok s1 H1) as [HG1 Hl1].
+      pose proof (event_effect _ _ _ s s1 HG H1) as Heff.
+      apply (IH (t + d) s1 HG1 (HP (t + d) s s1 HG HPs Hlt1 Hx Heff)); [rewrite Hl1; apply Qle_refl|exact H2].
+    + inversion Hk; subst. exists s. split; [exact HG|]. split; [exact HPs|]. split; [reflexivity|].
+      apply andb_false_iff in Ec. destruct Ec as [Ec|Ec].
+      * right. left. apply negb_false_iff. exact Ec.
+      * right. right. intro E. rewrite E in Ec. discriminate Ec.
+  - inversion H; subst. exists s. split; [exact HG|]. split; [exact HPs|]. split; [reflexivity|].
+    left. apply Qltb_false in Epos. intro E. apply (Qlt_irrefl 0). eapply Qlt_le_trans; eassumption.
+Qed.
+
+(* the same for the whole simulator with explicit initial sets *)
+Definition init_rows (i0 r0l : list node) : list row :=
+  match kind with
+  | SIR => [(tmin, [order g - Z.of_nat (length i0) - Z.of_nat (length r0l); Z.of_nat (length i0); Z.of_nat (length r0l)]%Z)]
+  | SIS => [(tmin, [order g - Z.of_nat (length i0); Z.of_nat (length i0)]%Z)]
+  end.
+Definition init_elog (i0 r0l : list node) : list (Q * node * N) :=
+  if full then rev (map (fun u => (tmin, u, stI)) i0 ++ map (fun u => (tmin, u, stR)) r0l) else [].
+Definition init_tlog (i0 : list node) : list (Q * option node * node) :=
+  if full then rev (map (fun u => (tmin, None, u)) i0) else [].
+
+Theorem gillespie_reach_P : forall (P : gst -> Prop) i0 r0 fuel, wf_init i0 r0 ->
+  (forall t1 s s', GInv s -> P s -> last_time s <= t1 -> xlt t1 tmax = true -> effect t1 s s' -> P s') ->
+  (forall I L, P (mkG (st_init i0 (r0_list r0)) I L (init_rows i0 (r0_list r0)) (init_elog i0 (r0_list r0)) (init_tlog i0))) ->
+  forall out, reach (gillespie g kind tau gamma (Some i0) r0 None tmin tmax full fuel) out ->
+    exists s', GInv s' /\ P s' /\ out = finish g kind tmin full s' /\ stopped s'.
+Proof.
+  intros P i0 r0 fuel [Hi [Hr [Hii [Hri Hdis]]]] HP HP0 out H.
+  assert (Hsis : kind = SIS -> r0_list r0 = []). { intro E. unfold r0_list. rewrite E. reflexivity. }
+  unfold gillespie in H. cbv zeta in H. fold (r0_list r0) in H. fold (st_init i0 (r0_list r0)) in H.
+  destruct (init_ginv i0 (r0_list r0) (init_elog i0 (r0_list r0)) (init_tlog i0)
+              Hi Hr Hii Hri Hdis Hsis) as [I [L [He HG]]].
+  unfold init_elog, init_tlog in HG. rewrite He in H. cbn [lift fst snd] in H.
+  eapply (loop_reach_P P HP fuel tmin _ HG); [apply HP0| |exact H].
+  unfold last_time. cbn [rows]. destruct kind; apply Qle_refl.
+Qed.
+
+(* ---- initial condition as seen in the output (C05) ---- *)
+Theorem gillespie_row0 : forall i0 r0 fuel out, wf_init i0 r0 ->
+  reach (gillespie g kind tau gamma (Some i0) r0 None tmin tmax full fuel) out ->
+  exists rest, so_rows out = init_rows i0 (r0_list r0) ++ rest.
+Proof.
+  intros i0 r0 fuel out Hwf H.
+  destruct (gillespie_reach_P (fun s => exists l, rows s = l ++ init_rows i0 (r0_list r0)) i0 r0 fuel Hwf) with (out := out)
+    as [s' [_ [[l Hl] [E _]]]].
+  - intros t1 s s' _ [l Hl] _ _ Heff. destruct Heff as [u _ _ _ Hr _ _|u v _ _ _ _ _ Hr _ _];
+      rewrite Hr; unfold push_row, push_row2; destruct kind; eexists (_ :: l); rewrite Hl; reflexivity.
+  - intros I L. exists []. reflexivity.
+  - exact H.
+  - subst out. unfold finish. cbn [so_rows]. rewrite Hl, rev_app_distr. exists (rev l).
+    unfold init_rows. destruct kind; reflexivity.
+Qed.
+
+Lemma gillespie_rho_and_infecteds_rejected : forall i0 r0 rho fuel,
+  gillespie g kind tau gamma (Some i0) r0 (Some rho) tmin tmax full fuel = Fail EoNError.
+Proof. reflexivity. Qed.
+
+(* what random.sample hands over: distinct nodes of the graph, as many as asked *)
+Lemma concat_knode : forall l, concat (map knode l) = l.
+Proof. induction l as [|x l IH]; [reflexivity|]. cbn [map concat knode app]. rewrite IH. reflexivity. Qed.
+
+Lemma firstn_map : forall (A B : Type) (f : A -> B) n l, firstn n (map f l) = map f (firstn n l).
+Proof. intros A B f n. induction n as [|n IH]; intros [|x l]; cbn; [reflexivity|reflexivity|reflexivity|]. rewrite IH. reflexivity. Qed.
+Lemma skipn_map : forall (A B : Type) (f : A -> B) n l, skipn n (map f l) = map f (skipn n l).
+Proof. intros A B f n. induction n as [|n IH]; intros [|x l]; cbn; try reflexivity. apply IH. Qed.
+Lemma rotate_map : forall (A B : Type) (f : A -> B) n l, rotate n (map f l) = map f (rotate n l).
+Proof. intros A B f n l. unfold rotate. rewrite skipn_map, firstn_map, map_app. reflexivity. Qed.
+
+Lemma rotate_perm : forall (A : Type) n (l : list A), Permutation.Permutation (rotate n l) l.
+Proof.
+  intros A n l. unfold rotate. eapply Permutation.Permutation_trans; [apply Permutation.Permutation_app_comm|].
+  rewrite firstn_skipn. apply Permutation.Permutation_refl.
+Qed.
+
+Lemma NoDup_firstn : forall (A : Type) n (l : list A), NoDup l -> NoDup (firstn n l).
+Proof.
+  intros A n. induction n as [|n IH]; intros [|x l] H; cbn; try constructor.
+  - apply NoDup_cons_iff in H. destruct H as [Hx H]. intro Hin. apply Hx.
+    rewrite <- (firstn_skipn n l). apply in_or_app. left. exact Hin.
+  - apply IH. apply NoDup_cons_iff in H. apply H.
+Qed.
+
+Lemma sample_wf : forall n i, (n <= length (gnodes g))%nat ->
+  let i0 := concat (firstn n (rotate i (map knode (gnodes g)))) in
+  NoDup i0 /\ incl i0 (gnodes g) /\ length i0 = n.
+Proof.
+  intros n i Hn. cbv zeta. rewrite rotate_map, firstn_map, concat_knode.
+  split; [|split].
+  - apply NoDup_firstn. eapply Permutation.Permutation_NoDup; [apply Permutation.Permutation_sym; apply rotate_perm|exact Hnd].
+  - intros x Hx. apply (Permutation.Permutation_in x (rotate_perm _ i (gnodes g))).
+    rewrite <- (firstn_skipn n (rotate i (gnodes g))). apply in_or_app. left. exact Hx.
+  - apply firstn_length_le. rewrite (Permutation.Permutation_length (rotate_perm _ i (gnodes g))). exact Hn.
+Qed.
+
+(* rho (or nothing) given: int(round(N*rho)) (or 1) distinct nodes are drawn, and the run
+   is the run from that explicit set *)
+Theorem gillespie_rho : forall r0 rho fuel out,
+  reach (gillespie g kind tau gamma None r0 rho tmin tmax full fuel) out ->
+  let n := match rho with None => 1%Z | Some r => round_half_even (Qnat (length (gnodes g)) * r) end in
+  (0 <= n)%Z /\ exists i0, NoDup i0 /\ incl i0 (gnodes g) /\ Z.of_nat (length i0) = n /\
+    reach (gillespie g kind tau gamma (Some i0) r0 None tmin tmax full fuel) out.
+Proof.
+  intros r0 rho fuel out H. cbv zeta.
+  assert (Hgen : forall n : Z,
+    reach (if (n <? 0)%Z then Fail ValueErr
+           else Sample (map knode (gnodes g)) (Z.to_nat n) (fun ks =>
+                  gillespie g kind tau gamma (Some (concat ks)) r0 None tmin tmax full fuel)) out ->
+    (0 <= n)%Z /\ exists i0, NoDup i0 /\ incl i0 (gnodes g) /\ Z.of_nat (length i0) = n /\
+      reach (gillespie g kind tau gamma (Some i0) r0 None tmin tmax full fuel) out).
+  { intros n Hn. destruct (n <? 0)%Z eqn:En; [inversion Hn|]. apply Z.ltb_ge in En. split; [exact En|].
+    inversion Hn as [| | | | | | |? ? ? i ? Hl Hk]; subst. rewrite map_length in Hl.
+    pose proof (sample_wf (Z.to_nat n) i Hl) as Hs. cbv zeta in Hs. destruct Hs as [A [B C]].
+    exists (concat (firstn (Z.to_nat n) (rotate i (map knode (gnodes g))))).
+    split; [exact A|]. split; [exact B|]. split; [|exact Hk].
+    apply (f_equal Z.of_nat) in C. rewrite Z2Nat.id in C by exact En. exact C. }
+  destruct rho as [r|]; apply Hgen; exact H.
+Qed.
+
 End Runs.
